@@ -177,7 +177,14 @@ def oracle(case, r):
             dd = diff(d0, strip(r[k]))
             if dd:
                 f.append("description differs (%s): %s" % (what, fmt_diff(dd)))
-    for k, what in (("v_dir", "directory"), ("v_zip", "zip"), ("v_chain", "chain")):
+    if "d_renamed" in r:
+        dr = strip(r["d_renamed"])
+        if dr.get("name") != "C04renamed":
+            f.append("read_model(name=...) gives a model named %r" % dr.get("name"))
+        dd = diff(dict(d0, name=None), dict(dr, name=None))
+        if dd:
+            f.append("description differs (read under another model name): " + fmt_diff(dd))
+    for k, what in (("v_dir", "directory"), ("v_zip", "zip"), ("v_chain", "chain"), ("v_renamed", "directory under another name")):
         if k in r and r[k] != r["v0"]:
             bad = [(p, a, b) for p, a, b in zip(case["probes"], r["v0"], r[k]) if a != b]
             f.append("cells return other values after reading from the %s: %s" % (what, json.dumps(bad[:2])[:400]))
